@@ -5,6 +5,7 @@ hold on the encoded code within the bound.  `sat` comes back with a model (concr
 `unknown`/timeouts are inconclusive -- never success.
 """
 import time
+import os
 import z3
 from fractions import Fraction
 from .sym import Sym, identity_terms
@@ -52,6 +53,30 @@ class Batch:
         self.results = []
         self.solver_s = 0.0
         self.queries = 0
+        self.second = {'checked': 0, 'agree': 0, 'disagree': 0, 'no_answer': 0, 'seconds': 0.0}
+
+    def _second_opinion(self, cons, verdict):
+        """cvc5 on the same query (a fixed sample of every batch): a contradiction between the two solvers makes the obligation
+        inconclusive, never a verdict"""
+        if os.environ.get('VERIF_NO_CVC5'):
+            return True
+        t0 = time.time()
+        s2 = z3.Solver()
+        for a in self.assumptions:
+            s2.add(a)
+        for c in cons:
+            s2.add(c)
+        res = cvc5_recheck(s2.to_smt2(), 20000)
+        self.second['seconds'] += time.time() - t0
+        if res in ('sat', 'unsat'):
+            self.second['checked'] += 1
+            if res == verdict:
+                self.second['agree'] += 1
+                return True
+            self.second['disagree'] += 1
+            return False
+        self.second['no_answer'] += 1
+        return True
 
     def add_identity(self, name, lhs, rhs, info=None):
         """claim lhs == rhs (Sym / numbers).  Obligation: cleared-denominator numerators differ -> must be unsat."""
@@ -76,6 +101,7 @@ class Batch:
 
     def run(self, stop_on_sat=False):
         s = self._solver()
+        step = max(1, len(self.items) // 2 + 1)      # second opinion on the first and the middle obligation of every batch
         for name, cons, info in self.items:
             t0 = time.time()
             # cheap syntactic pre-pass: identical sides (still recorded as discharged by simplification)
@@ -85,7 +111,11 @@ class Batch:
             r = s.check()
             dt = (time.time() - t0) * 1000
             self.queries += 1
-            if r == z3.unsat:
+            idx = len(self.results)
+            sample = (idx % step == 0) and r in (z3.unsat, z3.sat)
+            if sample and not self._second_opinion(cons, 'unsat' if r == z3.unsat else 'sat'):
+                self.results.append(Result(name, 'unknown', None, dt, {'reason': 'z3 (%s) and cvc5 disagree' % r, 'info': info}))
+            elif r == z3.unsat:
                 self.results.append(Result(name, 'unsat', None, dt, info))
             elif r == z3.sat:
                 self.results.append(Result(name, 'sat', model_to_dict(s.model()), dt, info))
